@@ -29,7 +29,7 @@ func VrtNewScheduler(q quartz.Scheduler) *Scheduler { return &Scheduler{schedule
 func (f *VrtFakeQuartz) Start(context.Context) {}
 func (f *VrtFakeQuartz) IsStarted() bool       { return true }
 func (f *VrtFakeQuartz) ScheduleJob(jobDetail *quartz.JobDetail, trigger quartz.Trigger) error {
-	k := jobDetail.JobKey().String()
+	k := jobDetail.JobKey().Name()
 	if _, dup := f.Jobs[k]; !dup {
 		f.Order = append(f.Order, k)
 	}
@@ -44,7 +44,7 @@ func (f *VrtFakeQuartz) GetScheduledJob(jobKey *quartz.JobKey) (quartz.Scheduled
 	return nil, quartz.ErrJobNotFound
 }
 func (f *VrtFakeQuartz) DeleteJob(jobKey *quartz.JobKey) error {
-	k := jobKey.String()
+	k := jobKey.Name()
 	f.Deleted = append(f.Deleted, k)
 	if _, ok := f.Jobs[k]; !ok {
 		return quartz.ErrJobNotFound
@@ -74,3 +74,6 @@ func (f *VrtFakeQuartz) Fire(key string) bool {
 	_ = jd.Job().Execute(context.Background())
 	return true
 }
+
+// VrtNoopStop is a summary for Scheduler.Stop in Engine-B scenarios.
+func VrtNoopStop(s *Scheduler) {}
